@@ -47,6 +47,61 @@ def rand_ta(rng, nq=None, nrules=None, alpha=None, states=None, pfin=0.4):
     return {"fin": fin, "rules": rules}, alpha
 
 
+WIDE_QUICK = list(range(1, 13)) + [15, 16, 17, 31, 32, 33, 63, 64, 65, 127, 128, 129, 255, 256, 257]
+WIDE_THOROUGH = list(range(1, 301)) + [511, 512, 513, 1023, 1024, 1025]
+
+
+def wide_ta(rng, rank):
+    """the WIDE family (size thresholds): a layered automaton whose middle layer has one or two rules of the given rank over
+    leaf states (exactly one tree each) and dead states (no tree), so that every child has at most one macro-state and the
+    oracle stays cheap whatever the rank.  Dead children sit first / last / in the middle / everywhere / nowhere."""
+    nl = rng.choice([1, 2, 2, 3])
+    nd = rng.choice([0, 1, 1, 2])
+    leafs = list(range(nl))
+    dead = list(range(nl, nl + nd))
+    rules = [[rng.choice(["a", "b", "c"]), [], q] for q in leafs]
+    for q in dead:
+        how = rng.random()
+        if how < 0.4:
+            rules.append(["g", [q], q])
+        elif how < 0.6:
+            rules.append(["g", [rng.choice(dead)], q])
+    nm = rng.choice([1, 1, 2])
+    mids = list(range(nl + nd, nl + nd + nm))
+    sym = "w%d" % rank
+    for m in mids:
+        for _ in range(rng.choice([1, 1, 2])):
+            kids = [rng.choice(leafs) for _ in range(rank)]
+            if dead:
+                how = rng.random()
+                if how < 0.2:
+                    kids[0] = rng.choice(dead)
+                elif how < 0.4:
+                    kids[-1] = rng.choice(dead)
+                elif how < 0.55:
+                    kids[rng.randrange(rank)] = rng.choice(dead)
+                elif how < 0.65:
+                    kids = [rng.choice(leafs + dead) for _ in range(rank)]
+                elif how < 0.7:
+                    kids = [rng.choice(dead) for _ in range(rank)]
+            r = [sym, kids, m]
+            if r not in rules:
+                rules.append(r)
+    fin = []
+    if rng.random() < 0.5:
+        top = nl + nd + nm
+        if rng.random() < 0.5 or nm == 1:
+            rules.append(["g", [rng.choice(mids)], top])
+        else:
+            rules.append(["f", [rng.choice(mids), rng.choice(mids)], top])
+        fin = [top] + [m for m in mids if rng.random() < 0.2]
+    else:
+        fin = [m for m in mids if rng.random() < 0.7] or ([mids[0]] if rng.random() < 0.8 else [])
+    if rng.random() < 0.15 and dead:
+        fin.append(rng.choice(dead))
+    return {"fin": fin, "rules": rules}
+
+
 def rename(a, f):
     return {"fin": [f[q] for q in a.get("fin", [])],
             "rules": [[r[0], [f[k] for k in r[1]], f[r[2]]] for r in a.get("rules", [])]}
